@@ -351,7 +351,7 @@ class ForkSim:
         self.run = run
         self.sim = run.sim
         self.procs = {}
-        self.next_pid = 5001
+        self.next_pid = 5000001   # above any pid_max: never the pid of a real child (subprocess)
         self._tls = threading.local()
         self.violations = []
         self.mem = None
@@ -487,6 +487,10 @@ class ForkSim:
                 finally:
                     self.block_intervals.append((t_from, sim.now, nk))
         info = self.procs.get(pid)
+        if info is None and pid > 0:
+            # not a simulated process: a real child started by subprocess (zcat, a script) - the real call decides
+            # (still running / exit status / not a child of ours)
+            return self._saved[2](pid, flags)
         if info is None or info["reaped"] or info["parent"] != myproc:
             raise ChildProcessError(10, "No child processes")
         if not self._exited(info):
